@@ -28,14 +28,14 @@ FORBIDDEN = re.compile(r'\b(Admitted|admit|Axiom|Axioms|Parameter|Parameters|Con
 # property -> (Properties file, [tie files], human description of the theorems)
 TIE_FOR = {
     'C01': ['TieClasses', 'TieMath', 'TieFormulas', 'TieCacheBody', 'TieRoute'], 'C02': ['TieClasses', 'TieMath', 'TieFormulas', 'TieCacheBody'],
-    'C03': ['TieClasses', 'TieMath', 'TieFormulas', 'TieOrch', 'TieUtil'], 'C04': ['TieClasses', 'TieMath', 'TieFormulas', 'TieOrch', 'TieAcc', 'TieUtil'],
-    'C05': ['TieClasses', 'TieReducers', 'TieRules', 'TieSynth', 'TieSynthAll', 'TieSymRev', 'TieAcc', 'TieNorm', 'TieRoute', 'TieUtil'],
-    'C06': ['TieClasses', 'TieReducers', 'TieMath', 'TieFormulas', 'TieOrch', 'TieRules', 'TieSynth', 'TieSynthAll', 'TieSymRev', 'TieAcc', 'TieNorm', 'TieRoute', 'TieUtil', 'TieObj'],
+    'C03': ['TieClasses', 'TieMath', 'TieFormulas', 'TieOrch', 'TieUtil'], 'C04': ['TieClasses', 'TieMath', 'TieFormulas', 'TieOrch', 'TieAcc', 'TieUtil', 'TieEntry'],
+    'C05': ['TieClasses', 'TieReducers', 'TieRules', 'TieSynth', 'TieSynthAll', 'TieSymRev', 'TieAcc', 'TieNorm', 'TieRoute', 'TieUtil', 'TieEntry'],
+    'C06': ['TieClasses', 'TieReducers', 'TieMath', 'TieFormulas', 'TieOrch', 'TieRules', 'TieSynth', 'TieSynthAll', 'TieSymRev', 'TieAcc', 'TieNorm', 'TieRoute', 'TieUtil', 'TieObj', 'TieEntry'],
     'C07': ['TieClasses', 'TieReducers', 'TieMath', 'TieFormulas', 'TieOrch', 'TieRules', 'TieRoute'],
-    'C08': ['TieReducers', 'TieRules', 'TieNorm', 'TieStep', 'TieUtil'],
-    'C09': ['TieCache', 'TieBound', 'TieCacheBody', 'TieStep'], 'C10': ['TieWrites', 'TieUtil'], 'C11': ['TieReducers', 'TieBound', 'TieRules', 'TieStep', 'TieUtil'],
+    'C08': ['TieReducers', 'TieRules', 'TieNorm', 'TieStep', 'TieUtil', 'TieRebuild', 'TieEntry'],
+    'C09': ['TieCache', 'TieBound', 'TieCacheBody', 'TieStep'], 'C10': ['TieWrites', 'TieUtil', 'TieRebuild'], 'C11': ['TieReducers', 'TieBound', 'TieRules', 'TieStep', 'TieUtil', 'TieRebuild'],
     'C12': ['TieClasses', 'TieObj'], 'C13': ['TiePublic', 'TieObj'], 'C14': ['TieSets', 'TieRoute'], 'C15': ['TieOperators', 'TieCtor'],
-    'C16': ['TieClasses', 'TieCtor'], 'C17': ['TieClasses', 'TieMath', 'TieCtor'], 'C18': ['TieSets'],
+    'C16': ['TieClasses', 'TieCtor', 'TieRebuild'], 'C17': ['TieClasses', 'TieMath', 'TieCtor'], 'C18': ['TieSets'],
 }
 
 
